@@ -285,6 +285,35 @@ def main():
     t += "end Chrono.Extracted\n"
     files["Names.lean"] = t
 
+    # ---------------------------------------------------------------- plugins (tools/extractors/*.py)
+    # each plugin defines run(api) and uses api.read / api.ev / api.find_const / api.find_array /
+    # api.section(key, where, fn, fallback) / api.snap(key) / api.keep(key, value) / api.emit(file, text)
+    class Api:
+        pass
+    api = Api()
+    api.read, api.ev, api.find_const, api.find_array, api.strip_comments = read, ev, find_const, find_array, strip_comments
+    api.lean_nat_list, api.bytes_lit, api.rust_bytes, api.consts, api.hdr = lean_nat_list, bytes_lit, rust_bytes, consts, hdr
+    api.section = lambda key, where, fn, fallback: section(rep, key, where, fn, fallback)
+    api.snap = lambda key: snap.get(key)
+    def _keep(key, value):
+        data[key] = value
+    api.keep = _keep
+    def _emit(fn, text):
+        files[fn] = text
+    api.emit = _emit
+    plug_dir = os.path.join(os.path.dirname(os.path.abspath(__file__)), "extractors")
+    if os.path.isdir(plug_dir):
+        import importlib.util
+        for fn in sorted(os.listdir(plug_dir)):
+            if fn.endswith(".py"):
+                spec = importlib.util.spec_from_file_location("extractor_" + fn[:-3], os.path.join(plug_dir, fn))
+                mod = importlib.util.module_from_spec(spec)
+                try:
+                    spec.loader.exec_module(mod)
+                    mod.run(api)
+                except Exception as e:  # a broken plugin must not take the others down
+                    rep.stale("plugin:" + fn, repr(e))
+
     changed = []
     for fn, content in files.items():
         p = os.path.join(OUT, fn)
